@@ -393,6 +393,8 @@ pub struct World {
     /// WHOAREYOU packets the local node has sent and that are not answered/expired: (peer, cd bytes, nonce, sent at)
     ttl_ms: u64,
     last_touch: BTreeMap<u64, u64>,
+    /// the application may reuse the id of a request in flight (focus c19dup)
+    dup_ids: bool,
     /// sequence number of the record the application last supplied for a peer (who-are-you answer)
     known_seq: BTreeMap<(usize, SocketAddr), u64>,
     out_challenges: Vec<(usize, Vec<u8>, MessageNonce, u64, SocketAddr)>,
@@ -400,7 +402,8 @@ pub struct World {
     expired_challenges: Vec<(usize, Vec<u8>, MessageNonce, u64, SocketAddr)>,
     consumed_cds: BTreeSet<Vec<u8>>,
     pending_wru: Vec<(WhoAreYouRef, usize)>,
-    pending_app_reqs: Vec<(NodeAddress, RequestId, usize)>,
+    /// requests handed to the application: (from, id, peer, index of the step that delivered it)
+    pending_app_reqs: Vec<(NodeAddress, RequestId, usize, usize)>,
     recorded: Vec<(SocketAddr, Vec<u8>, &'static str, usize)>, // src, datagram, kind, maker peer
     nonces_seen: HashMap<(KeyT, ANonce), Vec<u8>>,
     handshakes_per_request: BTreeMap<u64, u32>,
@@ -490,6 +493,7 @@ impl World {
             reqs: vec![],
             ttl_ms: 86_400_000,
             last_touch: BTreeMap::new(),
+            dup_ids: false,
             known_seq: BTreeMap::new(),
             out_challenges: vec![],
             expired_challenges: vec![],
@@ -676,7 +680,9 @@ pub enum Move {
     AppRespond { idx: usize, multi: u8 },
     NetRandom { peer: usize },
     NetHandshake { ch: usize, variant: HsVariant },
-    NetRequest { peer: usize, old_keys: bool },
+    /// as_other: the packet names the next peer as its source, but comes from this peer's address
+    /// under this peer's session keys (a node with a session of its own borrowing another identity)
+    NetRequest { peer: usize, old_keys: bool, as_other: bool },
     NetAnswer { req: usize, style: u8 },
     NetWhoAreYou { req: usize },
     NetReplay { idx: usize, other_src: bool },
@@ -895,7 +901,8 @@ impl Runner {
             }
             HandlerOut::Request(na, r) => {
                 if let Some(pi) = self.w.peers.iter().position(|p| p.id == na.node_id) {
-                    self.w.pending_app_reqs.push((na.clone(), r.id.clone(), pi));
+                    let at = self.steps.len();
+                    self.w.pending_app_reqs.push((na.clone(), r.id.clone(), pi, at));
                 }
             }
             HandlerOut::Response(_, r) => {
@@ -980,6 +987,20 @@ impl Runner {
                         }
                     } else {
                         self.w.nonces_seen.insert((k.clone(), *n), bytes.to_vec());
+                    }
+                    // C06: what the handler encrypts is the specified encoding of the message it was
+                    // given - it decodes, and to the request the application submitted under that id
+                    match m {
+                        AMsg::Bad(_) => self.w.fail("C06", "the handler put a message on the wire whose plaintext does not decode as a discv5 message".into()),
+                        AMsg::Req(rid, b) => {
+                            let submitted: Option<RequestBody> = self.w.reqs.iter().find(|q| q.rid == *rid && q.external).map(|q| q.body.clone());
+                            if let Some(body) = submitted {
+                                if !self.w.dup_ids && self.w.it.body(&body) != *b {
+                                    self.w.fail("C06", "the request on the wire decodes to another request than the one the application submitted under that id".into());
+                                }
+                            }
+                        }
+                        _ => {}
                     }
                     if let (APkt::Hs { .. }, AMsg::Req(rid, _), true) = (t, m, is_new) {
                         let c = self.w.handshakes_per_request.entry(*rid).or_insert(0);
@@ -1204,6 +1225,19 @@ impl Runner {
         };
         let idl = rng.range(1, 8) as usize;
         let id = RequestId(rng.bytes(idl));
+        // focus c19dup (monitor-only runs): the application reuses the id of a request that is still in
+        // flight to the same peer, with another body (the model and the request ledger assume
+        // distinct ids; the nonce monitors do not)
+        if self.w.dup_ids && rng.chance(1, 3) {
+            let inflight: Vec<RequestId> = self.w.reqs.iter().filter(|q| q.external && q.peer == pi && q.first_tx > 0 && q.terminal == 0 && q.body != body).map(|q| RequestId(q.rid_bytes.clone())).collect();
+            if !inflight.is_empty() {
+                let id = inflight[rng.below(inflight.len() as u64) as usize].clone();
+                self.w.hist.add("request:id_of_a_request_in_flight");
+                let _ = self.vh.to_handler.send(HandlerIn::Request(contact, Box::new(Request { id, body })));
+                settle().await;
+                return self.close_step("EvTick".into()).await;
+            }
+        }
         // request ids must be distinct per case
         let rid = self.w.it.rid(&id);
         if self.w.reqs.iter().any(|q| q.rid == rid) {
@@ -1276,8 +1310,11 @@ impl Runner {
         self.tick_gap().await;
         // one response in four answers a request a second time (the peer re-sent it, the local record
         // changed in between, ...): the entry stays in the list, the content differs
-        let k = idx % self.w.pending_app_reqs.len();
-        let (na, id, pi) = if rng.chance(1, 4) { self.w.pending_app_reqs[k].clone() } else { self.w.pending_app_reqs.remove(k) };
+        // idx >= FORCE (scripted) and every other random choice: the request delivered last
+        let k = if idx >= FORCE || idx % 2 == 1 { self.w.pending_app_reqs.len() - 1 } else { idx % self.w.pending_app_reqs.len() };
+        let (na, id, pi, at) = if idx < FORCE && rng.chance(1, 4) { self.w.pending_app_reqs[k].clone() } else { self.w.pending_app_reqs.remove(k) };
+        // answered in the very next step after its delivery: the session it arrived on is still there
+        let at_once = at + 1 == self.steps.len();
         let body = match multi % 3 {
             0 => ResponseBody::Pong { enr_seq: 3 + rng.below(4), ip: IpAddr::V4(Ipv4Addr::new(10, 2, 0, 1)), port: NonZeroU16::new(9000).unwrap() },
             1 => ResponseBody::Nodes { total: 1, nodes: vec![self.w.peers[pi].enrs[0].clone()] },
@@ -1286,9 +1323,67 @@ impl Runner {
         let a = (self.w.it.id(&na.node_id), self.w.it.addr(&na.socket_addr));
         let rid = self.w.it.rid(&id);
         let rb = self.w.it.rbody(&body);
+        let is_talk = matches!(body, ResponseBody::Talk { .. });
         let _ = self.vh.to_handler.send(HandlerIn::Response(na, Box::new(Response { id, body })));
         settle().await;
         self.close_step(format!("EvResponse ({}, {}) {} {}", a.0, a.1, rid, rb.coq())).await;
+        // C20 / C14: the answer the application gives to a request goes out to the node address the
+        // request came from (one datagram per response here: the bodies above fit one packet)
+        if at_once {
+            self.w.hist.add("response:at_once");
+            let sent = self.steps.last().map(|s| s.wires.iter().filter(|(d, p)| *d == a && matches!(p, APkt::Msg { .. })).count()).unwrap_or(0);
+            if sent != 1 {
+                let what = format!("the application answered a request in the step after its delivery, {} datagrams went to the requester instead of one", sent);
+                self.w.failures.push((if is_talk { "C20" } else { "C14" }.into(), what));
+            }
+        }
+    }
+
+    /// The application answers every request it holds at once (nothing is read from the wire in
+    /// between): the queue to the socket task holds 30 packets, the handler has to wait for room.
+    async fn app_respond_burst(&mut self, rng: &mut Rng) {
+        if self.w.pending_app_reqs.is_empty() {
+            return;
+        }
+        self.tick_gap().await;
+        let reqs = std::mem::take(&mut self.w.pending_app_reqs);
+        let mut events = vec![];
+        for (na, id, _pi, _) in reqs.iter() {
+            let body = if rng.chance(1, 2) {
+                ResponseBody::Talk { response: rng.bytes(5) }
+            } else {
+                ResponseBody::Pong { enr_seq: 3 + rng.below(4), ip: IpAddr::V4(Ipv4Addr::new(10, 2, 0, 1)), port: NonZeroU16::new(9000).unwrap() }
+            };
+            let a = (self.w.it.id(&na.node_id), self.w.it.addr(&na.socket_addr));
+            let rid = self.w.it.rid(id);
+            let rb = self.w.it.rbody(&body);
+            events.push((a, format!("EvResponse ({}, {}) {} {}", a.0, a.1, rid, rb.coq())));
+            let _ = self.vh.to_handler.send(HandlerIn::Response(na.clone(), Box::new(Response { id: id.clone(), body })));
+        }
+        settle().await;
+        self.collect().await;
+        // one datagram per response, in the order of the responses
+        let wires = std::mem::take(&mut self.buffered_wires);
+        let times = std::mem::take(&mut self.wire_times);
+        let n = events.len();
+        if wires.len() != n {
+            self.w.failures.push(("C20".into(), format!("the application answered {} requests at once, {} datagrams reached the wire", n, wires.len())));
+        }
+        let mut wi = wires.into_iter().zip(times.into_iter());
+        for (k, (_, ev)) in events.into_iter().enumerate() {
+            if let Some((w, t)) = wi.next() {
+                self.buffered_wires.push(w);
+                self.wire_times.push(t);
+            }
+            if k + 1 == n {
+                for (w, t) in wi.by_ref() {
+                    self.buffered_wires.push(w);
+                    self.wire_times.push(t);
+                }
+            }
+            self.close_step(ev).await;
+        }
+        self.w.hist.add("scripted:burst_of_responses");
     }
 
     /// Delivers a datagram; returns false if it is not a decodable discv5 packet for the local node
@@ -1342,6 +1437,23 @@ impl Runner {
                     });
                     if delivered_as_victim {
                         self.w.failures.push(("C02".into(), "a message was delivered as coming from a peer that never completed a handshake with this node".into()));
+                    }
+                }
+                // C01: a session is reported under the record of the node the packet names (the one whose
+                // key was proven in the handshake), never under another node's record
+                if let Ok((p, _)) = wire_decode(&local, self.w.pid, &bytes) {
+                    let named = match &p.kind {
+                        PacketKind::Message { src_id } | PacketKind::Handshake { src_id, .. } => Some(*src_id),
+                        // a WHOAREYOU: the session this node sets up is with the node it had addressed
+                        // the challenged request to (requests go to the peers' own addresses)
+                        _ => self.w.peers.iter().find(|q| q.addr == src).map(|q| q.id),
+                    };
+                    for o in &self.buffered_outs {
+                        if let HandlerOut::Established(e, _, _) = o {
+                            if named.is_some() && Some(e.node_id()) != named {
+                                self.w.failures.push(("C01".into(), "a node was reported as established under the record of another node than the one that proved its key".into()));
+                            }
+                        }
                     }
                 }
                 // C03: a replayed handshake never creates or re-keys a session (it may still be
@@ -1540,6 +1652,17 @@ impl Runner {
             return;
         }
         self.inject(src, bytes, if late { "late-handshake" } else { "handshake" }, signer, tampered, forged).await;
+        // C14: the request a handshake packet carries is handed to the application whenever the
+        // handshake set up the session - also when the record it presents does not verify against the
+        // source address (the peer is then not admitted to the table, but its PING is answered)
+        // (only handshakes whose message is encrypted under the keys both sides derive)
+        if !late && !tampered && honest_signer && matches!(variant, HsVariant::Honest | HsVariant::NoRecord | HsVariant::OldRecord | HsVariant::Unverifiable) {
+            let set_up = self.steps[n_late..].iter().any(|s| s.outs.iter().any(|o| matches!(o, AOut::Established(..) | AOut::Unverifiable(..))));
+            let delivered = self.steps[n_late..].iter().any(|s| s.outs.iter().any(|o| matches!(o, AOut::Request(..))));
+            if set_up && !delivered {
+                self.w.failures.push(("C14".into(), "a handshake set up a session but the request it carried was not handed to the application".into()));
+            }
+        }
         // C12: the record reported with the session a handshake establishes is never older than the one
         // the application supplied for that node with its who-are-you answer (the service would write
         // it over the stored record)
@@ -1568,13 +1691,21 @@ impl Runner {
         }
     }
 
-    async fn net_request(&mut self, rng: &mut Rng, pi: usize, old_keys: bool) {
+    async fn net_request(&mut self, rng: &mut Rng, pi: usize, old_keys: bool, as_other: bool) {
         if self.w.peers[pi].keys.is_empty() {
             return self.net_random(rng, pi).await;
         }
         let n = self.w.peers[pi].keys.len();
         let (ek, _) = if old_keys && n >= 2 { self.w.peers[pi].keys[n - 2] } else { self.w.peers[pi].keys[n - 1] };
-        let src_id = self.w.peers[pi].id;
+        // a peer that holds a session of its own names another node as the source of its packet: the
+        // session is that of (this address, this peer), so the packet finds none and nothing of it is
+        // delivered in the other node's name
+        let victim = (pi + 1) % self.w.peers.len();
+        let borrowed = as_other && victim != pi;
+        let src_id = if borrowed { self.w.peers[victim].id } else { self.w.peers[pi].id };
+        if borrowed {
+            self.w.hist.add("request:under_borrowed_identity");
+        }
         let mut nonce = [0u8; 12];
         nonce.copy_from_slice(&rng.bytes(12));
         let (_, req) = self.some_request_bytes(rng);
@@ -1582,7 +1713,7 @@ impl Runner {
         p.message = toolkit_encrypt(&ek, nonce, &req, &aad).unwrap();
         let bytes = wire_encode(&p, self.w.pid, &self.w.local_id);
         let src = self.w.peers[pi].addr;
-        self.inject(src, bytes, "request", pi, false, None).await;
+        self.inject(src, bytes, "request", pi, false, if borrowed { Some(victim) } else { None }).await;
     }
 
     async fn net_answer(&mut self, rng: &mut Rng, req: usize, style: u8) {
@@ -1609,8 +1740,17 @@ impl Runner {
         let id = RequestId(rid_bytes);
         let is_findnode = matches!(self.w.reqs[qi].body, RequestBody::FindNode { .. });
         // answers to the handler's own ENR request: mostly the peer's record or another node's
-        let style = if !self.w.reqs[qi].external { *rng.pick(&[0u8, 0, 1, 2, 3, 4, 4, 4, 4, 5]) } else { style };
-        let body = match (is_findnode, style % 6) {
+        let style = if !self.w.reqs[qi].external { *rng.pick(&[0u8, 0, 1, 2, 3, 4, 4, 4, 4, 5, 6, 6, 7]) } else { style };
+        let body = match (is_findnode, style % 8) {
+            (true, 6) | (true, 7) => {
+                // two records: the peer's own and a genuine, newer one of another node (without an
+                // address, so that only the id check can tell); the handler reads the last one
+                let other = (pi + 1) % self.w.peers.len();
+                let foreign = mk_enr(&self.w.peers[other].key, 9, None);
+                let own = self.w.peers[pi].enrs[2].clone();
+                self.w.hist.add("response:two_records");
+                ResponseBody::Nodes { total: 1, nodes: if style % 8 == 6 { vec![foreign, own] } else { vec![own, foreign] } }
+            }
             (true, 0) => ResponseBody::Nodes { total: 1, nodes: vec![self.w.peers[pi].enrs[2].clone()] },
             (true, 1) => ResponseBody::Nodes { total: 3, nodes: vec![self.w.peers[pi].enrs[2].clone()] },
             (true, 2) => ResponseBody::Nodes { total: 1, nodes: vec![] },
@@ -1827,8 +1967,8 @@ fn gen_move(rng: &mut Rng, npeers: usize, focus: &str) -> Move {
             };
             Move::NetHandshake { ch: rng.below(8) as usize, variant }
         }
-        6 => Move::NetRequest { peer: p, old_keys: rng.chance(1, 4) },
-        7 => Move::NetAnswer { req: rng.below(16) as usize, style: rng.below(7) as u8 },
+        6 => Move::NetRequest { peer: p, old_keys: rng.chance(1, 4), as_other: rng.chance(1, 5) },
+        7 => Move::NetAnswer { req: rng.below(16) as usize, style: rng.below(8) as u8 },
         8 => Move::NetWhoAreYou { req: rng.below(16) as usize },
         9 => Move::NetReplay { idx: rng.below(64) as usize, other_src: rng.chance(1, 4) },
         10 => Move::NetMutate { idx: rng.below(64) as usize, how: rng.below(4) as u8, pos: rng.next() },
@@ -1848,6 +1988,8 @@ pub struct CaseOut {
 
 async fn run_case(seed: u64, idx: u64, focus: &str, thorough: bool, fixes: &str) -> CaseOut {
     let mut rng = crate::kb::case_rng(seed ^ 0x68616e64, idx);
+    // (the permit/ban list is process-wide: every case starts from an empty one)
+    *discv5::verif::filter::PERMIT_BAN_LIST.write() = Default::default();
     let npeers = rng.range(2, 3) as usize;
     let retries = *rng.pick(&[1u8, 1, 2, 3]);
     let capacity = *rng.pick(&[1usize, 2, 1000, 1000]);
@@ -1855,6 +1997,7 @@ async fn run_case(seed: u64, idx: u64, focus: &str, thorough: bool, fixes: &str)
     // between exchanges (the cache reads the paused tokio clock in these runs)
     let ttl_ms: u64 = if focus == "c15x" { *rng.pick(&[1500u64, 1500, 2500, 4000]) } else { *rng.pick(&[86_400_000u64, 86_400_000, 1500, 2500, 4000]) };
     let mut r = Runner::new_with(&mut rng, npeers, retries, capacity, Some(Duration::from_millis(ttl_ms))).await;
+    r.w.dup_ids = focus == "c19dup";
     let nmoves = if thorough { rng.range(30, 90) } else { rng.range(15, 45) };
     let focus_prop = focus.chars().take(3).collect::<String>().to_uppercase();
     let mut moves = vec![];
@@ -1872,7 +2015,7 @@ async fn run_case(seed: u64, idx: u64, focus: &str, thorough: bool, fixes: &str)
         }
         let q1 = r.w.reqs.len() - 1;
         r.net_whoareyou(&mut rng, FORCE + q1).await;
-        r.net_request(&mut rng, p, true).await;
+        r.net_request(&mut rng, p, true, false).await;
         for _ in 0..rng.range(1, 3) {
             r.app_request(&mut rng, p, true, 2).await;
         }
@@ -1905,11 +2048,11 @@ async fn run_case(seed: u64, idx: u64, focus: &str, thorough: bool, fixes: &str)
             r.net_whoareyou(&mut rng, FORCE + q3).await;
             let n_old = r.steps.len();
             let had_old_keys = r.w.peers[p].keys.len() >= 2;
-            r.net_request(&mut rng, p, true).await;
+            r.net_request(&mut rng, p, true, false).await;
             if had_old_keys && r.steps[n_old..].iter().any(|s| s.outs.iter().any(|o| matches!(o, AOut::Request(..)))) {
                 r.w.failures.push(("C15".into(), "a message under the keys of a session that had expired before the new handshake was accepted".into()));
             }
-            r.net_request(&mut rng, p, false).await;
+            r.net_request(&mut rng, p, false, false).await;
             r.w.hist.add("scripted:session_expires_inside_handshake");
             moves.push("scripted: request on a valid session, WHOAREYOU after the session expired, datagram under the old keys".into());
         }
@@ -1923,7 +2066,7 @@ async fn run_case(seed: u64, idx: u64, focus: &str, thorough: bool, fixes: &str)
         r.advance(idle).await;
         match rng.below(4) {
             0 => r.app_request(&mut rng, p, true, 2).await,
-            1 => r.net_request(&mut rng, p, false).await,
+            1 => r.net_request(&mut rng, p, false, false).await,
             2 => {
                 r.net_random(&mut rng, q).await;
                 r.app_answer_wru(0, 1).await;
@@ -1984,9 +2127,87 @@ async fn run_case(seed: u64, idx: u64, focus: &str, thorough: bool, fixes: &str)
         r.advance(TIMEOUT_MS / GRID_MS + 2).await;
         moves.push(format!("scripted: FINDNODE to peer {}, challenged, answered by {} of 3 NODES packets, a timeout passes", p, packets));
     }
+    // scripted opening: the application's answer to a who-are-you query arrives after a session with
+    // that peer has been set up the other way round, so a challenge is outstanding next to a live
+    // session; a request submitted in that window waits for the challenge and is no use of the
+    // session: when the session timeout falls between that request and the end of the challenge,
+    // the queued request needs a fresh handshake
+    if matches!(focus, "c15" | "c15x") && ttl_ms < 10_000 && rng.chance(1, 3) {
+        let p = rng.below(npeers as u64) as usize;
+        r.net_random(&mut rng, p).await;
+        r.app_request(&mut rng, p, true, 0).await;
+        let q0 = r.w.reqs.len() - 1;
+        r.net_whoareyou(&mut rng, FORCE + q0).await;
+        r.net_answer(&mut rng, FORCE + q0, 6).await;
+        // the challenge lives for one request timeout; it is sent so that the session timeout falls
+        // into its lifetime (or just outside)
+        let before = *rng.pick(&[700u64, 600, 400, 150]);
+        r.advance((ttl_ms - before) / GRID_MS).await;
+        r.app_answer_wru(0, 1 + rng.below(3) as u8).await;
+        r.advance(rng.range(10, (before.min(900) / GRID_MS).max(12) - 4)).await;
+        r.app_request(&mut rng, p, true, 0).await;
+        r.advance(TIMEOUT_MS / GRID_MS + 4).await;
+        r.w.hist.add("scripted:request_queued_behind_a_challenge_next_to_a_session");
+        moves.push(format!("scripted: who-are-you query for peer {}, session set up by a request of ours, challenge {} ms before the session timeout, request while challenged", p, before));
+    }
+    // scripted opening: the application bans the address of a peer while requests to it are in flight.
+    // A ban (like an exhausted quota) stops what is unsolicited, never the answers this node is
+    // waiting for: a PING and a FINDNODE to the banned address are answered (the NODES answer in three
+    // packets) and both complete with their responses
+    if matches!(focus, "c04" | "c13" | "c11") && rng.chance(1, 5) {
+        let p = rng.below(npeers as u64) as usize;
+        r.app_request(&mut rng, p, true, 0).await;
+        let q0 = r.w.reqs.len() - 1;
+        r.net_whoareyou(&mut rng, FORCE + q0).await;
+        r.net_answer(&mut rng, FORCE + q0, 6).await;
+        let ip = r.w.peers[p].addr.ip();
+        discv5::verif::filter::PERMIT_BAN_LIST.write().ban_ips.insert(ip, None);
+        let n0 = r.w.reqs.len();
+        r.app_request(&mut rng, p, true, 0).await;
+        r.app_request(&mut rng, p, true, 1).await;
+        if r.w.reqs.len() == n0 + 2 && r.w.reqs[n0].first_tx > 0 && r.w.reqs[n0 + 1].first_tx > 0 {
+            let order = rng.chance(1, 2);
+            if order {
+                r.net_answer(&mut rng, FORCE + n0, 6).await;
+            }
+            for _ in 0..3 {
+                r.net_answer(&mut rng, FORCE + n0 + 1, 1).await;
+            }
+            if !order {
+                r.net_answer(&mut rng, FORCE + n0, 6).await;
+            }
+            let done: Vec<bool> = (n0..n0 + 2).map(|i| r.w.reqs[i].terminal == 1 && r.w.reqs[i].answered).collect();
+            if !done[0] || !done[1] {
+                let what = format!("a request to an address the application had banned was answered in time but did not complete with its response (ping: {}, findnode in three packets: {}): the answers to this node's own requests are solicited", done[0], done[1]);
+                r.w.failures.push(("C04".into(), what.clone()));
+                r.w.failures.push(("C13".into(), what.clone()));
+                if !done[1] {
+                    r.w.failures.push(("C11".into(), "the later packets of an honest responder's NODES answer were treated as unsolicited traffic (quotas and bans apply to them)".into()));
+                }
+            }
+            r.w.hist.add("scripted:answers_from_a_banned_address");
+        }
+        discv5::verif::filter::PERMIT_BAN_LIST.write().ban_ips.remove(&ip);
+        moves.push(format!("scripted: session with peer {}, its address banned, a PING and a FINDNODE answered (NODES in three packets)", p));
+    }
+    // scripted opening: a peer with a session sends forty requests, the application answers all of
+    // them at once
+    if matches!(focus, "c20" | "c14") && rng.chance(1, 6) {
+        let p = rng.below(npeers as u64) as usize;
+        r.app_request(&mut rng, p, true, 0).await;
+        let q0 = r.w.reqs.len() - 1;
+        r.net_whoareyou(&mut rng, FORCE + q0).await;
+        r.net_answer(&mut rng, FORCE + q0, 6).await;
+        let n = rng.range(31, 44);
+        for _ in 0..n {
+            r.net_request(&mut rng, p, false, false).await;
+        }
+        r.app_respond_burst(&mut rng).await;
+        moves.push(format!("scripted: session with peer {}, {} requests of the peer, all answered at once", p, n));
+    }
     // scripted opening: dial a peer whose record is unknown; the peer challenges, we answer with a
     // handshake and ask for its record; the peer answers that request with its own or another record
-    let p_script = match focus { "c01" => 3, "c12" => 3, _ => 8 };
+    let p_script = match focus { "c01" => 3, "c12" => 3, "c20" => 3, "c14" => 3, _ => 8 };
     if rng.chance(1, p_script) {
         let p = rng.below(npeers as u64) as usize;
         r.app_request(&mut rng, p, false, 0).await;
@@ -1994,6 +2215,14 @@ async fn run_case(seed: u64, idx: u64, focus: &str, thorough: bool, fixes: &str)
         moves.push(format!("scripted: request without record to peer {}", p));
         r.net_whoareyou(&mut rng, FORCE + q0).await;
         moves.push("scripted: the peer challenges that request".into());
+        // (the peer may send a request of its own before it answers the record request: it is
+        // delivered and answered like any other)
+        if rng.chance(1, 2) {
+            r.net_request(&mut rng, p, false, false).await;
+            let body_kind = rng.below(3) as u8;
+            r.app_respond(&mut rng, FORCE, body_kind).await;
+            moves.push("scripted: a request of the peer on the new session, answered at once".into());
+        }
         if let Some(qi) = (0..r.w.reqs.len()).rev().find(|i| !r.w.reqs[*i].external && r.w.reqs[*i].peer == p) {
             r.net_answer(&mut rng, FORCE + qi, 0).await;
             moves.push("scripted: the peer answers the internal record request".into());
@@ -2010,7 +2239,7 @@ async fn run_case(seed: u64, idx: u64, focus: &str, thorough: bool, fixes: &str)
             Move::AppRespond { idx, multi } => r.app_respond(&mut rng, idx, multi).await,
             Move::NetRandom { peer } => r.net_random(&mut rng, peer).await,
             Move::NetHandshake { ch, variant } => r.net_handshake(&mut rng, ch, variant).await,
-            Move::NetRequest { peer, old_keys } => r.net_request(&mut rng, peer, old_keys).await,
+            Move::NetRequest { peer, old_keys, as_other } => r.net_request(&mut rng, peer, old_keys, as_other).await,
             Move::NetAnswer { req, style } => r.net_answer(&mut rng, req, style).await,
             Move::NetWhoAreYou { req } => r.net_whoareyou(&mut rng, req).await,
             Move::NetReplay { idx, other_src } => r.net_replay(&mut rng, idx, other_src).await,
@@ -2143,7 +2372,7 @@ async fn run_c15_case(seed: u64, idx: u64) -> (Vec<(String, String)>, Vec<String
     std::thread::sleep(Duration::from_millis(60));
     match refresh {
         1 => r.app_request(&mut rng, 0, true, 0).await,
-        2 => r.net_request(&mut rng, 0, false).await,
+        2 => r.net_request(&mut rng, 0, false, false).await,
         _ => {}
     }
     script.push(format!("after 60 ms: refresh kind {}", refresh));
@@ -2167,7 +2396,7 @@ async fn run_c15_case(seed: u64, idx: u64) -> (Vec<(String, String)>, Vec<String
             r.w.failures.push(("C15".into(), "a session used within the timeout was not used for the next request".into()));
         }
     } else {
-        r.net_request(&mut rng, 0, false).await;
+        r.net_request(&mut rng, 0, false, false).await;
         let delivered = r.steps[n0..].iter().any(|s| s.outs.iter().any(|o| matches!(o, AOut::Request(..))));
         let wru = r.steps[n0..].iter().any(|s| s.outs.iter().any(|o| matches!(o, AOut::WhoAreYou(..))));
         script.push(format!("encrypted request from the peer: delivered = {}, who-are-you = {}", delivered, wru));
